@@ -80,7 +80,8 @@ def s_log2():
 
 
 THETA_TYPES = ["int", "float", "np.float64", "np.float32", "np.int64", "np.int32", "np.int16", "np.int8", "np.uint8",
-               "array:float64", "array:float32", "array:int64", "array:int16", "array:int8", "array:uint8", "list:int"]
+               "array:float64", "array:float32", "array:int64", "array:int16", "array:int8", "array:uint8", "list:int",
+               "list:np.float32", "list:np.int8", "tuple:np.float32"]
 
 
 def _theta_conv(kind, vals):
@@ -89,6 +90,10 @@ def _theta_conv(kind, vals):
         return np.array(vals, dtype=np.dtype(kind[6:]))
     if kind == "list:int":
         return [int(v) for v in vals]
+    if kind.startswith(("list:np.", "tuple:np.")):
+        f = getattr(np, kind.split("np.")[1])
+        seq = [f(v) for v in vals]
+        return seq if kind.startswith("list") else tuple(seq)
     f = {"int": int, "float": float}.get(kind) or getattr(np, kind[3:])
     return f(vals[0])
 
@@ -114,7 +119,7 @@ def _thetatype(case):
     vals = [int(v) for v in case["deg"]] if unit == "deg" else [(abs(int(v)) % 4) * (1 if v >= 0 else -1) for v in case["deg"]]       # small integers as radians
     if "uint" in kind:
         vals = [abs(v) for v in vals]
-    multi = kind.startswith(("array:", "list:"))
+    multi = kind.startswith(("array:", "list:", "tuple:"))
     if not multi:
         vals = vals[:1]
     rad = [v * PI / 180.0 if unit == "deg" else float(v) for v in vals]
